@@ -35,7 +35,7 @@ def run_case(case, part):
         r = np.exp(a - a.max())
         return [drv.u_for("z" if r[j] == 1.0 else acc_codes[i], r[j]) for j, i in enumerate(ids)]
 
-    run = drv.call_sampler(case["sampler"], N, lls, case["path"], o, plan, perm=perm, pool_spec=case.get("pool"),
+    run = drv.call_sampler(case["sampler"], N, lls, case["path"], o, plan, perm=perm, pool_spec=case.get("pool"), lib_dtype=case.get("dtype"),
                            with_lnprior=True)
     if run.exc is not None:
         part.record(case, outcome=("exc", type(run.exc).__name__))
@@ -124,6 +124,11 @@ def build_cases(quick):
                                                  opts=dict(return_logprobs=True, n_requested_samples=nreq, init_batch_size=ibs, n_linear_samples=nlin,
                                                            growth_factor=2, **({"max_prior_samples": mps} if mps is not None else {}),
                                                            **({"randomize_prior_order": perm is not None} if path != "inmem" else {}))))
+                                        if path == "inmem" and mps is None and N > 1:
+                                            # the random-order option given on the in-memory path: whatever rows come back must carry their own values
+                                            inm.append(dict(kind="c06", sampler="iterative", N=N, rot=rot, acc=list(acc), path="inmem", perm=list(range(N))[::-1], may_raise=True,
+                                                            opts=dict(return_logprobs=True, n_requested_samples=nreq, init_batch_size=ibs, n_linear_samples=nlin,
+                                                                      growth_factor=2, randomize_prior_order=True)))
                 if N == 4 and quick:
                     continue
                 allperms = [list(p) for p in itertools.permutations(range(N))][1:]
@@ -149,6 +154,11 @@ def build_cases(quick):
         inm.append(dict(kind="c06", sampler="rejection", N=N, rot=5, acc="all", flat=True, path="inmem", opts=dict(return_logprobs=True, n_linear_samples=1)))
         fil.append(dict(kind="c06", sampler="iterative", N=N, rot=5, acc="all", flat=True, path="file", perm="rotate7", may_raise=True,
                         opts=dict(return_logprobs=True, n_requested_samples=N - 10, init_batch_size=600, n_linear_samples=1, growth_factor=2, randomize_prior_order=True)))
+    # a library stored in single precision, larger than any plausible block size and not a multiple of a power of two
+    for N, path in ((20011, "inmem"), (20011, "obj"), (3001, "inmem")):
+        (inm if path == "inmem" else fil).append(dict(kind="c06", sampler="rejection", N=N, rot=5, acc="all", flat=True, path=path, dtype="float32",
+                                                        **({"pool": ["serial"]} if path != "inmem" else {}),
+                                                        opts=dict(return_logprobs=True, n_linear_samples=1, return_all_logprobs=True)))
     return inm, fil
 
 
